@@ -1,8 +1,8 @@
 ---------------------------- MODULE MC_PairPot ----------------------------
 (***************************************************************************)
-(* Model of property C12.  One state per (model, shift, parameter point);   *)
+(* Model of property C12.  One state per (model, shift, parameter point);  *)
 (* the points are a product grid plus boundary values of the documented    *)
-(* domain (EdgePars).  Histories of calls: see MC_PairPotSession.           *)
+(* domain (EdgePars).  Histories of calls: see MC_PairPotSession.          *)
 (* The clauses "the documented closed forms are the derivatives of the     *)
 (* documented energy", "the cut-off term is s'(r_c)" and the force-shift   *)
 (* identities are INVARIANTs; Emit prints, per state, the canonical        *)
